@@ -91,7 +91,7 @@ var props = []PropSpec{
 					c.InstrBudget = 2_000_000
 					c.AllocLimit = 200_000
 				},
-				Bounds: "every byte of the packet symbolic (header, set header, body); packet length 0..20+B with B = 12 (quick) / 24 (thorough) for fixed-width templates and 6 / 9 for templates with a variable-length field; templates: zero fields, each of 14 single-field shapes (incl. unknown elements of length 0, 3, variable), 11 (quick) / 36 pairs + 64 triples (thorough) multi-field layouts; x 3 decoding modes"},
+				Bounds: "every byte of the packet symbolic (header, set header, body); packet length 0..20+B with B = 12 (quick) / 16 (thorough) for fixed-width templates and 6 / 7 for templates with a variable-length field; templates: zero fields, each of 14 single-field shapes (incl. unknown elements of length 0, 3, variable), 11 (quick) / 36 pairs + 27 triples (thorough) multi-field layouts; x 3 decoding modes"},
 			{Func: "Check_TemplatePacket", Reach: []string{"error", "message", "zero-fields", "one-field", "several-fields", "invalidated-or-other-key"},
 				Tune: func(c *sym.Config, th bool) {
 					c.HangIsViolation = true
@@ -128,10 +128,10 @@ var props = []PropSpec{
 					c.HangIsViolation = true
 					c.InstrBudget = 3_000_000
 				},
-				Bounds: "histories of k = 3 (quick) / 4 (thorough) messages, each one of {template A, template B (same record size, different shape), bad template (cut short after id / unknown element in strict mode), data}; the (observation domain, template id) of every message is symbolic, so all aliasing patterns are explored by the solver; tcp and udp flavours; at most once per history a template record with field count 0 (for the key, or with record id 2)"},
+				Bounds: "histories of k = 3 messages (quick and thorough) and of k = 4 messages over a reduced menu (thorough: templates A and B, one kind of bad template, data), each one of {template A, template B (same record size, different shape), bad template (cut short after id / unknown element in strict mode), data}; the (observation domain, template id) of every message is symbolic, so all aliasing patterns are explored by the solver; tcp and udp flavours; at most once per history a template record with field count 0 (for the key, or with record id 2)"},
 			{Func: "Check_HistoryAfterUse", Reach: []string{"data-decoded-A", "data-decoded-B", "data-rejected", "final"},
 				Tune:   func(c *sym.Config, th bool) { c.HangIsViolation = true; c.InstrBudget = 3_000_000 },
-				Bounds: "histories that start with a template and a data set (keys symbolic: same key or not), followed by every sequence of 2 (quick) / 3 (thorough) further messages (total depth 4 / 5)"},
+				Bounds: "histories that start with a template and a data set (keys symbolic: same key or not), followed by every sequence of 2 further messages (quick and thorough) and of 3 further messages over the reduced menu (thorough)"},
 		},
 	},
 	{
@@ -213,7 +213,7 @@ var props = []PropSpec{
 		Harnesses: []HarnessSpec{
 			{Func: "Check_Schedule", Reach: []string{"refresh", "replacement", "data-accepted", "data-rejected", "fired", "expired", "used-after-ttl-before-timer-ran", "callback-found-refreshed-template", "done"},
 				Tune:   func(c *sym.Config, th bool) { c.ClockMode = "frozen" },
-				Bounds: "all schedules of depth 5 (quick) / 6 (thorough) over {template/refresh, bad template, data, advance by symbolic d, fire a due armed timer, run a pending callback} on 2 keys (two template ids of one observation domain); all timing relations are the solver's"},
+				Bounds: "all schedules of depth 5 on 2 keys (two template ids of one observation domain; quick and thorough) and of depth 7 on 1 key (thorough) over {template/refresh, bad template, data, advance by symbolic d, fire a due armed timer, run a pending callback}; all timing relations are the solver's"},
 			{Func: "Check_ScheduleAfterLifetime", Reach: []string{"refresh", "expired", "fired", "callback-found-refreshed-template", "done"},
 				Tune:   func(c *sym.Config, th bool) { c.ClockMode = "frozen" },
 				Bounds: "schedules that start with a template for the first key and an arbitrary advance, followed by all sequences of 4 (quick) / 5 (thorough) further events (total depth 6 / 7)"},
@@ -295,7 +295,7 @@ var props = []PropSpec{
 	{
 		ID: "C12", Pkg: "./c12", Level: "other", NoNativeBuild: true,
 		Explanation: "PARTIAL and bounded; originally planned as not applicable (DESIGN.md section 6) and claimed only for the slice that became encodable once schedule exploration existed (section 11.4). Decided: TWO clients. (1) The real Start() of the TCP server runs on a listener supplied by the environment stub (net.Listen returns the harness's in-memory listener holding two connections): accept loop, wait-group accounting, per-connection handler and reader goroutines, listener close on Stop. (2) The real Start() of the UDP server runs on a stub socket (net.ListenUDP / ReadFromUDP deliver the registered datagrams of two clients into the caller's buffer, then block until Close): socket read loop with its buffer handling, dispatch, per-client goroutines and queues. (3)/(4) the same handlers driven through the hooks VerifServeConn / VerifHandleUDPMessage with more variation (a client that disconnects inside a message header or body; three datagram arrival orders). In all four a consumer goroutine drains the message channel and Stop is called either after all traffic was consumed or while it is in flight. Under EVERY interleaving of the goroutines' synchronisation points (mutex lock/unlock with real blocking semantics, channel send/receive/close/select with rendezvous semantics for unbuffered channels, WaitGroup, the stub socket's read) within the stated preemption budget: each connection's / client's messages are delivered exactly once (a prefix of them when Stop comes first), in the order sent, uncorrupted and never mixed between clients (values are symbolic: an SMT obligation); the connection count / client table returns to zero; Stop returns (a hang is an engine deadlock / budget outcome); the listener / socket and every accepted connection are closed; afterwards no interpreted goroutine of the process remains; no panic (e.g. send on a closed channel, negative WaitGroup counter). NOT covered and not claimed: kernel sockets, TLS/DTLS servers, more than two clients, preemption inside code between synchronisation points (data races there are not detected: the race detector is not involved), Stop racing with the very beginning of Start, timing.",
-		Assumptions: []string{"in-memory net.Conn honouring the documented contract (Read returns the stream then io.EOF; after Close, Read errors)", "in-memory net.Listener: Accept returns the queued connections, then blocks until Close and returns an error", "stub UDP socket: ReadFromUDP copies the next datagram into the buffer it is given and returns its length and source; after Close it returns (0, nil, error)", "bounded preemptions; cooperative execution between synchronisation points", "the UDP client's idle ticker never fires"},
+		Assumptions: []string{"in-memory net.Conn honouring the documented contract (Read returns the stream then io.EOF; after Close, Read errors)", "in-memory net.Listener: Accept returns the queued connections, then blocks until Close and returns an error", "stub UDP socket: ReadFromUDP copies the next datagram into the buffer it is given and returns its length and source; after Close it returns (0, nil, error)", "bounded preemptions; cooperative execution between synchronisation points", "the UDP client's idle ticker fires only where a harness lets its interval pass (Check_UDPIdleTimeout)"},
 		Harnesses: []HarnessSpec{
 			{Func: "Check_TwoClients", NoNative: true, Reach: []string{"all-delivered", "stopped-during-traffic"},
 				Tune: func(c *sym.Config, th bool) {
@@ -326,6 +326,17 @@ var props = []PropSpec{
 					c.InstrBudget = 3_000_000
 				},
 				Bounds: "real Start() on an in-memory listener with 2 connections x (template + 2 data messages, symbolic values) x {Stop after the streams ended, Stop once the first connection was accepted}; every interleaving with at most 1 (quick) / 2 (thorough) preemptions"},
+			{Func: "Check_UDPIdleTimeout", NoNative: true, Reach: []string{"udp-idle-timeout"},
+				Tune: func(c *sym.Config, th bool) {
+					c.ExploreSchedules = true
+					c.MaxPreemptions = 1
+					if th {
+						c.MaxPreemptions = 2
+					}
+					c.HangIsViolation = true
+					c.InstrBudget = 3_000_000
+				},
+				Bounds: "real Start() on a stub UDP socket delivering template + 2 data datagrams of one client and a template of another; the first client's idle ticker fires once (harness-controlled) at any point relative to its later datagrams; every interleaving with at most 1 (quick) / 2 (thorough) preemptions"},
 			{Func: "Check_StartUDP", NoNative: true, Reach: []string{"start-udp-all-delivered", "start-udp-stopped-during-traffic"},
 				Tune: func(c *sym.Config, th bool) {
 					c.ExploreSchedules = true
